@@ -1487,6 +1487,27 @@ func (e *Entry) dup() *Entry {
 		ne.Extra[k] = v
 	}
 
+	// Pointer and slice fields that augmentation and deviation modify in
+	// place must not be shared between duplicates.
+	if e.ListAttr != nil {
+		la := *e.ListAttr
+		ne.ListAttr = &la
+	}
+	if e.Default != nil {
+		ne.Default = append([]string{}, e.Default...)
+	}
+	if e.RPC != nil {
+		ne.RPC = &RPCEntry{}
+		if e.RPC.Input != nil {
+			ne.RPC.Input = e.RPC.Input.dup()
+			ne.RPC.Input.Parent = &ne
+		}
+		if e.RPC.Output != nil {
+			ne.RPC.Output = e.RPC.Output.dup()
+			ne.RPC.Output.Parent = &ne
+		}
+	}
+
 	return &ne
 }
 
